@@ -428,10 +428,12 @@ def run_group(case: dict) -> Result:
         target = prod if op["op"] == "append" else members[op["m"]]
         sim.schedule(Event(time=Instant(op["t"] * MS), event_type="op", target=target, context={"op": op}))
 
-    mon = {"gen": group.generation, "prev_t": 0, "committed": {}, "assign_snaps": [], "rebalances": 0, "ok": True}
+    mon = {"inst_union": {}, "gen": group.generation, "prev_t": 0, "committed": {}, "assign_snaps": [], "rebalances": 0, "ok": True}
     parts = list(range(nparts))
 
     def after_event(_event):
+        for m_, ps_ in group.assignments.items():
+            mon["inst_union"].setdefault(m_, set()).update(ps_)
         g = group.generation
         if g != mon["gen"]:
             mon["gen"] = g
@@ -442,7 +444,12 @@ def run_group(case: dict) -> Result:
 
     def end_of_instant(t):
         asg = group.assignments
-        mon["assign_snaps"].append((t, asg))
+        # what each member owned at any point of this instant (join, poll and leave can share one instant)
+        seen_now = {m_: sorted(ps_ | set(asg.get(m_, []))) for m_, ps_ in mon["inst_union"].items()}
+        for m_, ps_ in asg.items():
+            seen_now.setdefault(m_, list(ps_))
+        mon["inst_union"] = {}
+        mon["assign_snaps"].append((t, seen_now))
         owners = {}
         for m, ps in asg.items():
             for pid in ps:
